@@ -21,8 +21,37 @@ from .C03 import v4_keys
 from .C17 import collision_table, NAMED
 
 
-def _has_call(e, rx):
+def _has_call(e, rx):   # existential; the keyword rules use _always_through (universal)
     return any(x[0] == 'call' and re.search(rx, x[1]) for x in walk(e))
+
+
+from ..common import always_through as _always_through   # noqa: E402
+
+
+def alias_case(ctx, rid):
+    """alias words (plus, times, artı, çarpı, ...) of the global and of every language table are matched on the
+    lower-cased token text - every definition of the matched text passes through to_lowercase - and the keys are lower-case
+    (shared with C19: an operator word of a language must work in any letter case, including non-ASCII capitals)"""
+    F = ctx.facts
+    j = ctx.config.j
+    # (alias words: plus, times, ...) matched on the lower-cased token text; keys are lower-case
+    al = F.one(r'^tokinizer::alias_tokinizer::alias_tokinizer$')
+    ctx.fn(al)
+    ms = model.deep_calls(ctx, al, r'Regex::is_match$')
+    if len(ms) < 1:
+        raise AnchorLost('alias_tokinizer: no is_match site found (also not in its helpers)')
+    for wb, t, margs in ms:
+        a = margs[1]
+        if _always_through(a, r'::to_lowercase$') and 'original_text' in render(a):
+            ctx.ok(rid, 'alias_tokinizer: is_match(to_lowercase(original_text))', 'shape', site=t['loc'])
+        else:
+            ctx.finding(rid, 'alias_tokinizer/raw-text', 'alias words are matched on %s, not on the lower-cased token text' % render(a)[:60], site=t['loc'])
+    keys = [('alias', k) for k in j.get('alias', {})] + [('languages.%s.alias' % l, k) for l, L in j['languages'].items() for k in L.get('alias', {})]
+    for where, k in sorted(keys):
+        if k != k.lower():
+            ctx.finding(rid, 'data/%s/%s' % (where, k), 'alias word %r (%s) is not lower-case but is matched on lower-cased text' % (k, where), site='config.json ' + where)
+        else:
+            ctx.ok(rid, 'alias %r lower-case' % k, 'data', sample=False)
 
 
 def w1_case(ctx):
@@ -40,7 +69,7 @@ def w1_case(ctx):
     for wb, t, gargs in gets:
         key = gargs[1]
         tbl = render(gargs[0])
-        if _has_call(key, r'::to_lowercase$') and 'currency' in render(key):
+        if _always_through(key, r'::to_lowercase$') and 'currency' in render(key):
             ctx.ok('W1', 'read_currency: %s.get(to_lowercase(currency))' % tbl, 'shape', site=t['loc'])
         else:
             ctx.finding('W1', 'read_currency/raw-key/%s' % tbl.rsplit('.', 1)[-1], 'read_currency looks up %s with %s: the currency name is not lower-cased' % (tbl, render(key)[:60]), site=t['loc'])
@@ -53,7 +82,7 @@ def w1_case(ctx):
     ins = [(bid, t) for bid, t in lj.calls(r'BTreeMap::<.*>::insert$') if last_field(lj.expr(t['args'][0])) == 'config::SmartCalcConfig.currency']
     if len(ins) != 1:
         raise AnchorLost('load_from_json: expected one insert into config.currency, found %d' % len(ins))
-    if _has_call(lj.expr(ins[0][1]['args'][1]), r'::to_lowercase$'):
+    if _always_through(lj.expr(ins[0][1]['args'][1]), r'::to_lowercase$'):
         ctx.ok('W1', 'load_from_json stores currency codes lower-cased', 'shape', site=ins[0][1]['loc'])
     else:
         ctx.finding('W1', 'load_from_json/currency-key', 'currency codes are stored as %s, but looked up lower-cased' % render(lj.expr(ins[0][1]['args'][1]))[:60], site=ins[0][1]['loc'])
@@ -92,7 +121,7 @@ def w1_case(ctx):
     zg = [(bid, t) for bid, t in pt.calls(r'BTreeMap::<.*>::get$') if 'timezones' in render(pt.expr(t['args'][0]))]
     if len(zg) != 1:
         raise AnchorLost('parse_timezone: expected one lookup in config.timezones, found %d' % len(zg))
-    if _has_call(pt.expr(zg[0][1]['args'][1]), r'::to_uppercase$'):
+    if _always_through(pt.expr(zg[0][1]['args'][1]), r'::to_uppercase$'):
         ctx.ok('W1', 'parse_timezone: timezones.get(to_uppercase(name))', 'shape', site=zg[0][1]['loc'])
     else:
         ctx.finding('W1', 'parse_timezone/raw-key', 'zone names are looked up as %s: not upper-cased' % render(pt.expr(zg[0][1]['args'][1]))[:60], site=zg[0][1]['loc'])
@@ -115,7 +144,7 @@ def w1_case(ctx):
     zins = [(bid, t) for bid, t in lj.calls(r'BTreeMap::<.*>::insert$') if last_field(lj.expr(t['args'][0])) == 'config::SmartCalcConfig.timezones']
     if len(zins) != 1:
         raise AnchorLost('load_from_json: expected one insert into config.timezones, found %d' % len(zins))
-    if _has_call(lj.expr(zins[0][1]['args'][1]), r'::to_uppercase$'):
+    if _always_through(lj.expr(zins[0][1]['args'][1]), r'::to_uppercase$'):
         ctx.ok('W1', 'load_from_json stores zone names upper-cased', 'shape', site=zins[0][1]['loc'])
     else:
         up = [k for k in j.get('timezones', {}) if re.fullmatch(r'[A-Za-z]{2,4}', k) and k != k.upper()]
@@ -127,24 +156,7 @@ def w1_case(ctx):
         ctx.note('W1: %d zone names are longer than the zone syntax [A-Z]{2,4} allows (excluded by the quantifier): %s' % (len(mixed), ', '.join(mixed[:20])))
     st = F.one(r'^smartcalc::SmartCalc::set_timezone$')
     ctx.fn(st)
-    # (alias words: plus, times, ...) matched on the lower-cased token text; keys are lower-case
-    al = F.one(r'^tokinizer::alias_tokinizer::alias_tokinizer$')
-    ctx.fn(al)
-    ms = model.deep_calls(ctx, al, r'Regex::is_match$')
-    if len(ms) < 1:
-        raise AnchorLost('alias_tokinizer: no is_match site found (also not in its helpers)')
-    for wb, t, margs in ms:
-        a = margs[1]
-        if _has_call(a, r'::to_lowercase$') and 'original_text' in render(a):
-            ctx.ok('W1', 'alias_tokinizer: is_match(to_lowercase(original_text))', 'shape', site=t['loc'])
-        else:
-            ctx.finding('W1', 'alias_tokinizer/raw-text', 'alias words are matched on %s, not on the lower-cased token text' % render(a)[:60], site=t['loc'])
-    keys = [('alias', k) for k in j.get('alias', {})] + [('languages.%s.alias' % l, k) for l, L in j['languages'].items() for k in L.get('alias', {})]
-    for where, k in sorted(keys):
-        if k != k.lower():
-            ctx.finding('W1', 'data/%s/%s' % (where, k), 'alias word %r (%s) is not lower-case but is matched on lower-cased text' % (k, where), site='config.json ' + where)
-        else:
-            ctx.ok('W1', 'alias %r lower-case' % k, 'data', sample=False)
+    alias_case(ctx, 'W1')
     # unit words / day keywords are looked up with the raw text (not among the classes the statement lists)
     raw = []
     for fnrx in (r'regex_tokinizer::text::text_regex_parser$', r'rules::duration_rules::duration_parse$', r'rules::duration_rules::as_duration$'):
@@ -152,7 +164,7 @@ def w1_case(ctx):
             for bid, t in fb.calls(r'BTreeMap::<.*>::get$'):
                 if 'constant_pair' in render(fb.expr(t['args'][0])) or any('constant' in render(x) for x in [fb.expr(t['args'][0])]):
                     k = fb.expr(t['args'][1])
-                    if not _has_call(k, r'::to_lowercase$'):
+                    if not _always_through(k, r'::to_lowercase$'):
                         raw.append(fn_key(fb.path))
     if raw:
         ctx.note('W1: duration-unit words and day keywords (constant_pair) are looked up with the raw text in %s: `5 Days`, `Today` are not recognised; these words are not among the classes the statement lists' % sorted(set(raw)))
